@@ -286,9 +286,10 @@ def _run_units(case, ctx, cl):
             nq = cls(math.nan, other)       # not-a-number and infinite SI values are values too: every operator acts on them as on floats
             for x, y in ((qs[1], nq), (nq, qs[5]), (nq, nq), (qs[1], cls(math.inf, other)), (cls(-math.inf, u), qs[5])):
                 _check_ops(ctx, cls, x, y, {**info, "a": repr(float(x)), "b": repr(float(y)), "note": "non-finite operand"})
-            for a in (qs[1], qs[5], qs[7]):
+            for a in (qs[1], qs[5], qs[7], qs[0], cls(-0.0, u)):          # (zero on the left is an operand like any other)
                 _check_ops(ctx, cls, a, b, {**info, "a": float(a), "b": [2.0, other]})
                 _check_ops(ctx, cls, a, a.as_unit(other), {**info, "a": float(a), "b": "same value in " + other})
+            _check_ops(ctx, cls, qs[5], cls(0.0, other), {**info, "a": float(qs[5]), "b": [0.0, other]})
             for u2 in units:
                 for a in (qs[5], qs[3], qs[0]):
                     ctx.count("as_unit_checks")
